@@ -262,6 +262,11 @@ func (m *SimpleMVCC) SetVersionKV(hash []byte, version int64) ([]*types.KeyValue
 	key := append(mvccMeta, hash...)
 	data := &types.Int64{Data: version}
 	v1 := &types.KeyValue{Key: key, Value: types.Encode(data)}
+	if len(v1.Value) == 0 {
+		// version 0 encodes to nothing, and the layered local databases read an empty value as
+		// "deleted": write the zero explicitly (field 1, varint 0), which decodes to the same message
+		v1.Value = []byte{0x08, 0x00}
+	}
 
 	k2 := append(mvccMetaVersion, pad(version)...)
 	v2 := &types.KeyValue{Key: k2, Value: hash}
